@@ -228,6 +228,7 @@ def forms_for(c):
             "sect_r": ([], "f(a, _)(b)", "(eval (call (call f a _) b))"),
             "chain_sect_l": ([], "(_ f b)(a)", "(eval (call (chain _ f b) a))"),
             "chain_sect_r": ([], "(a f _)(b)", "(eval (call (chain a f _) b))"),
+            "chain_sect_both": ([], "(_ f _)(a, b)", "(eval (call (chain _ f _) a b))"),
             "apply": ([], "[a, b] apply f", "(eval (chain (list a b) (K apply) f))"),
             "of": ([], "f of [a, b]", "(eval (chain f (K of) (list a b)))"),
             "sect_both": ([], "f(_, _)(a, b)", "(eval (call (call f _ _) a b))"),
@@ -528,6 +529,30 @@ def gen_arith_cases(ctx, sweep_ar, arith):
             p2 = ["a"] if ok.get(str(i)) == "P2" else []
             bnd = [("f", n, "(B f (%s) ())" % " ".join(p2)), ("a", ARITH_POOL[i], None)]
             cases.append(Case("arith1:" + n, bnd, "arith", False, arity=1))
+    return cases
+
+
+def gen_opassign_by_name(ctx, sweep, names, pool, allnames):
+    """`x NAME= b` and `x NAME = b` written with the operator's OWN name (not through a variable), for every global function the
+    sweep saw succeed on some pair, compared with the plain call. The unspaced spelling is skipped only where NAME= is itself the
+    name of a global (`<` `>`: `x <= b` is a comparison)."""
+    rng = ctx.rng
+    cases = []
+    per = ctx.n(2, 6)
+    for n in names:
+        m = sweep.get(n)
+        if not m or n in ENV_DEPENDENT:
+            continue
+        oks2 = [t for t in m["oks"] if len(t) == 2]
+        picks = rng.sample(oks2, min(per, len(oks2))) or [[rng.randrange(len(POOL)), rng.randrange(len(POOL))]]
+        for t in picks:
+            if n in BIG_UNSAFE and (t[0] in BIG or t[1] in BIG):
+                continue
+            setup = [f"a := {pool[t[0]]}", f"b := {pool[t[1]]}", "x := a"]
+            spellings = [f"x {n} = b"] + ([f"x {n}= b"] if (n + "=") not in allnames else [])
+            for stmt in spellings:
+                cases.append(dict(label="oa-name:" + n, setup=setup, stmt=stmt, target="x",
+                                  oracle_setup=setup + [f"f_ := {n}"], oracle="f_(a, b)", model=None, closures=[], rhs="b"))
     return cases
 
 
@@ -909,7 +934,8 @@ def run(ctx):
         nbad = report_dispatch(ctx, cases, runner)
     else:
         nbad = 0
-    oa_cases = gen_opassign_cases(ctx, sweep, names, pool) + gen_opassign_arith(ctx, arith)
+    oa_cases = (gen_opassign_cases(ctx, sweep, names, pool) + gen_opassign_arith(ctx, arith)
+                + gen_opassign_by_name(ctx, sweep, names, pool, {x["name"] for x in globs}))
     run_opassign(ctx, oa_cases, runner)
     oa_bad = report_opassign(ctx, oa_cases, runner)
     t_disp = time.time() - t1
@@ -963,6 +989,10 @@ def run(ctx):
             "all_fail": sum(1 for c in oa_cases if c["impl"] == "fail"),
             "compared_with_model_normal_form": sum(1 for c in oa_cases if c.get("ref_val") not in (None, "setup-fail")),
             "skipped": sum(1 for c in oa_cases if c["impl"] is None or c["impl"] == "setup-fail"),
+            "written_with_the_operator_name": {"cases": sum(1 for c in oa_cases if c["label"].startswith("oa-name:")),
+                                               "names": len({c["label"] for c in oa_cases if c["label"].startswith("oa-name:")}),
+                                               "unspaced": sum(1 for c in oa_cases if c["label"].startswith("oa-name:") and "= b" in c["stmt"] and " = b" not in c["stmt"]),
+                                               "with_value": sum(1 for c in oa_cases if c["label"].startswith("oa-name:") and (c["impl"] or "fail") not in ("fail", "setup-fail"))},
             "by_rhs": {r: sum(1 for c in oa_cases if c["rhs"] == r) for r, _ in OA_RHS},
             "samples": [{"program": "; ".join(c["setup"] + [c["stmt"], c["target"]]), "implementation": c["impl"],
                          "plain_calls": "; ".join(c["oracle_setup"][len(c["setup"]):] + [c["oracle"]]), "plain_call_value": c["oracle_val"],
